@@ -361,6 +361,8 @@ class Evaluator:
             a = self.pair_to_seq(a, b.ty[1])
         if b.ty[0] == 'pair' and a.ty[0] == 'seq':
             b = self.pair_to_seq(b, a.ty[1])
+        if self.eng.intensional_eq and a.ty == b.ty and a.ty[0] == 'block':
+            return a.t == b.t
         return S.val_eq(a, b)
 
     def pair_to_seq(self, p, et):
@@ -626,6 +628,7 @@ class Engine:
         self.in_axiom = False
         self.define_result = False
         self.result_defined = False
+        self.intensional_eq = False
         self.labels = {}                # id of a hypothesis formula -> clause name (invariants, cuts)
         self.set_cache = {}
         self.assumptions_used = set()
@@ -733,8 +736,10 @@ class Engine:
         path.assume(S.seq_n(r) == na + nb)
         path.assume(ForAll([k], Implies(And(0 <= k, k < na), Select(S.seq_arr(r), k) == Select(S.seq_arr(a), k)),
                            patterns=[Select(S.seq_arr(r), k)]))
-        path.assume(ForAll([k], Implies(And(0 <= k, k < nb), Select(S.seq_arr(r), k + na) == Select(S.seq_arr(b), k)),
-                           patterns=[Select(S.seq_arr(b), k)]))
+        path.assume(S.forall_p([k], Implies(And(0 <= k, k < na), Select(S.seq_arr(r), k) == Select(S.seq_arr(a), k)),
+                               [Select(S.seq_arr(a), k)]))
+        path.assume(S.forall_p([k], Implies(And(0 <= k, k < nb), Select(S.seq_arr(r), k + na) == Select(S.seq_arr(b), k)),
+                               [Select(S.seq_arr(b), k)]))
         path.assume(ForAll([k], Implies(And(na <= k, k < na + nb), Select(S.seq_arr(r), k) == Select(S.seq_arr(b), k - na)),
                            patterns=[Select(S.seq_arr(r), k)]))
         return r
@@ -1657,7 +1662,13 @@ class Engine:
         if self.c.cuts:
             src = ast.unparse(st)
             for key, clauses in self.c.cuts.items():
-                if src.startswith(key):
+                base, _, ordn = key.partition('#')
+                if src.startswith(base):
+                    if ordn:
+                        # k-th statement (in source order) with this text
+                        same = [id(n) for n in ast.walk(self.fn) if isinstance(n, ast.stmt) and ast.unparse(n).startswith(base)]
+                        if same.index(id(st)) != int(ordn):
+                            continue
                     self.bound_cuts.add(key)
                     env = dict(path.env, old=self.old_ns)
                     for cn, text in clauses.items():
@@ -2012,7 +2023,11 @@ class Engine:
 
     def assume_inv(self, spec, env, path):
         for cn, text in spec.inv.items():
-            f = path.assume(self.spec_formula(ast.parse(text, mode='eval').body, env, path))
+            self.intensional_eq = cn in spec.frame
+            try:
+                f = path.assume(self.spec_formula(ast.parse(text, mode='eval').body, env, path))
+            finally:
+                self.intensional_eq = False
             self.labels[f.get_id()] = cn
 
     def assume_lemmas(self, spec, env, path):
